@@ -141,6 +141,20 @@ def generate(rng, tier):
         if nt == 1:
             c["single"] = rng.random() < 0.5
         cases.append(c)
+    # ---- wide registers: qubit indices of several digits, supports that differ only in how their digits group
+    #      ({1,2} vs {12}, {1,13} vs {11,3}); few shots keep it cheap
+    for i in range(60 if big else 12):
+        w = rng.randrange(13, 25)
+        n = rng.choice([1, 2, 4, 8, rng.randrange(1, 12)])
+        a, b = rng.randrange(1, 3), rng.randrange(0, 10)
+        pairs = [[[a, b], [10 * a + b]]] if 10 * a + b < w and a != b else []
+        terms = _terms(rng, w, rng.randrange(1, 4), True)
+        for grp in pairs:
+            for qs in grp:
+                terms.append({"coeff": rat(Fraction(rng.randrange(-12, 13), 4)), "ops": [[q, "Z"] for q in qs]})
+        rng.shuffle(terms)
+        cases.append({"kind": "ev", "shots": _shots(rng, w, n), "terms": terms, "bessel": False, "exact": n in (1, 2, 4, 8)})
+        cases.append({"kind": "parities", "shots": _shots(rng, w, n), "terms": terms})
     for i in range(500 if big else 80):
         w = rng.randrange(1, maxw + 1)
         n = rng.choice([1, 2, rng.randrange(1, maxn + 1)])
